@@ -185,6 +185,13 @@ def gen_purity_world(rw, rv, knobs):
         m2_bits = mask_bits(rw, h2, w2, rw.choice(["random", "all_false", "sparse"]), 0)
         m2 = R.add("m", {"kind": "mask2d", "shape": [h2, w2], "bits": m2_bits, "pixel_scales": scales(rw), "origin": [0.0, 0.0]})
         n2 = n_unmasked(m2_bits)
+        if h2 != w2 and rw.random() < 0.6:
+            # a geometry twin: the SAME flat pattern of booleans in the transposed shape (anything keyed on the mask's bytes alone
+            # confuses the two)
+            mt = R.add("m", {"kind": "mask2d", "shape": [w2, h2], "bits": m2_bits, "pixel_scales": scales(rw), "origin": [0.0, 0.0]})
+            R.add("g", {"kind": "grid2d", "mask": ref(mt), "mode": "from_mask", "over": None})
+            R.add("a", {"kind": "array2d", "mask": ref(mt), "input": "slim", "values": hx(rv, n2, "data")})
+            R.add("a", {"kind": "array2d", "mask": ref(m2), "input": "slim", "values": hx(rv, n2, "data")})
         for _ in range(rw.randrange(2, 6)):
             k = rw.choice(["array2d", "grid2d", "grid2d", "grid2d_values", "vector", "kernel", "vis", "array1d", "irregular", "array2d", "operators", "mask_ctor", "kernel_gaussian"])
             mid, bits_, hh, ww, nn = rw.choice([(m0, m0_bits, h, w, n0), (m2, m2_bits, h2, w2, n2)])
@@ -287,6 +294,22 @@ def gen_purity_world(rw, rv, knobs):
             else:
                 cols = rw.randrange(1, 3)
                 objs.append(R.add("fl", {"kind": "func_list", "mask": ref(m0), "columns": cols, "matrix": hx(rv, n0 * cols, "positive"), "reg": (["Constant", {"coefficient": rw.choice([0.5, 2.0])}] if rw.random() < 0.3 else None), "override": hx(rv, n0 * cols, "positive") if rw.random() < 0.35 else None}))
+        if rw.random() < 0.25:
+            # two hand-assembled mappers that SHARE one mesh-grid object and one regularization object but see different adapt data
+            mk = rw.choice(["rectangular", "delaunay"])
+            if mk == "rectangular":
+                mesh_spec = {"kind": "rectangular", "shape": [rw.randrange(3, 5), rw.randrange(3, 5)]}
+            else:
+                hy, hx_ = h * ps[0] / 2.0, w * ps[1] / 2.0
+                mesh_spec = {"kind": "delaunay", "points": [prng.fhex(rv.uniform(-hy, hy)) if i % 2 == 0 else prng.fhex(rv.uniform(-hx_, hx_)) for i in range(2 * rw.randrange(5, 9))]}
+            mesh_node = R.add("mg", {"kind": "mesh_grid", "mask": ref(m0), "sub_size": 1, "mesh": mesh_spec})
+            adapt_b = R.add("a", {"kind": "array2d", "mask": ref(m0), "input": "slim", "values": hx(rv, n0, "positive")})
+            adapt_a = adapt or R.add("a", {"kind": "array2d", "mask": ref(m0), "input": "slim", "values": hx(rv, n0, "positive")})
+            reg_node = R.add("rg", {"kind": "regularization", "reg": gen_reg(rw, mk, True, allow_none=False)})
+            ms_a = R.add("mp", {"kind": "mapper_shared", "mask": ref(m0), "mesh_grid": ref(mesh_node), "regularization": ref(reg_node), "adapt": ref(adapt_a)})
+            ms_b = R.add("mp", {"kind": "mapper_shared", "mask": ref(m0), "mesh_grid": ref(mesh_node), "regularization": ref(reg_node), "adapt": ref(adapt_b)})
+            if rw.random() < 0.5:
+                objs.append(ms_a)
         rw.shuffle(objs)
         settings = None
         if rw.random() < 0.6:
@@ -339,7 +362,8 @@ def gen_purity_world(rw, rv, knobs):
         if mappers and rw.random() < 0.7:
             mp = rw.choice(mappers)
             spec = next(s for s in R.nodes if s["id"] == mp)
-            npix = spec["mesh"]["shape"][0] * spec["mesh"]["shape"][1] if spec["mesh"]["kind"] == "rectangular" else len(spec["mesh"]["points"]) // 2
+            mesh_of = spec["mesh"] if "mesh" in spec else next(s for s in R.nodes if s["id"] == spec["mesh_grid"]["$node"])["mesh"]
+            npix = mesh_of["shape"][0] * mesh_of["shape"][1] if mesh_of["kind"] == "rectangular" else len(mesh_of["points"]) // 2
             if len(objs) == 1 and rw.random() < 0.6:
                 values = {"from": ref(inv), "prop": "reconstruction"}
             else:
